@@ -192,17 +192,7 @@ def run_big(shard, rec, B):
     Ns = [33, 64, 65, 66, 70, 129, 130] if B.name == "np" else [33, 66]
     for t in range(shard["n"]):
         for N in Ns:
-            hot = sorted(set([0, 1, N // 2, N - 3, N - 2, N - 1] + [q for q in (31, 32, 63, 64, 65, 127, 128) if q < N]))
-            prog = []
-            for _ in range(int(rng.integers(4, 14))):
-                n = int(rng.integers(1, 4))
-                qs = sorted(int(x) for x in rng.choice(hot, size=min(n, len(hot)), replace=False))
-                kind = ["fmap", "bmap", "setgen"][int(rng.integers(3))]
-                if kind == "setgen":
-                    prog.append({"kind": "setgen", "G": gen.rand_nonid(rng, len(qs)), "PG": 2 * int(rng.integers(2)), "qubits": qs})
-                else:
-                    mg, mp = O.random_map(rng, len(qs))
-                    prog.append({"kind": kind, "mg": mg, "mp": mp, "qubits": qs})
+            prog, hot = PR.wide_program(rng, N)
             desc = {"N": N, "program": [{"kind": s["kind"], "qubits": s["qubits"]} for s in prog]}
             L = 6
             gs = np.stack([gen.sparse_string(rng, N, 3) for _ in range(L)])
